@@ -35,6 +35,8 @@ def make(i, tier):
         r = rng.random()
         if r < 0.2:
             ex["via"] = "raw" if r < 0.1 else "raw-noid"
+    from checks import c11
+    c11.add_logging(random.Random(seed ^ 0x102), scn, 0.3)     # (what is logged must not get in the way of the end)
     return seed, scn, models, skipped
 
 
